@@ -9,10 +9,13 @@ PROPS = {
         "runs": {
             "quick": [{"harness": "boolgp", "args": ["--scope", "S1", "--nmax", 4]},
                       {"harness": "boolgp", "args": ["--scope", "S1", "--nmax", 4, "--k", 8, "--board", "aligned"]},
-                      {"harness": "boolgp", "args": ["--scope", "S0", "--nmin", 4, "--nmax", 6, "--k", 8, "--board", "aligned"]},
+                      {"harness": "boolgp", "args": ["--scope", "S0", "--nmin", 4, "--nmax", 6, "--k", 8, "--board", "aligned", "--cliponly", 1]},
                       {"harness": "boolgp", "args": ["--scope", "S0", "--nmin", 4, "--nmax", 5, "--k", 16, "--both", 1, "--board", "aligned"]},
                       {"harness": "boolgp", "args": ["--scope", "S3", "--nmax", 3]}],
             "thorough": [{"harness": "boolgp", "args": ["--scope", "S1", "--nmax", 5]},
+                         {"harness": "boolgp", "args": ["--scope", "S1", "--nmax", 4, "--k", 8, "--board", "aligned"]},
+                         {"harness": "boolgp", "args": ["--scope", "S0", "--nmin", 4, "--nmax", 6, "--k", 8, "--board", "aligned", "--cliponly", 1]},
+                         {"harness": "boolgp", "args": ["--scope", "S0", "--nmin", 4, "--nmax", 5, "--k", 16, "--both", 1, "--board", "aligned"]},
                          {"harness": "boolgp", "args": ["--scope", "S3", "--nmax", 4]},
                          {"harness": "boolgp", "args": ["--scope", "S2", "--nmax", 4]},
                          {"harness": "boolgp", "args": ["--scope", "S4"]}],
@@ -28,15 +31,22 @@ PROPS = {
         "runs": {
             "quick": [{"harness": "boolgp", "args": ["--scope", "S1", "--nmax", 4]},
                       {"harness": "boolgp", "args": ["--scope", "S1", "--nmax", 4, "--k", 8, "--board", "aligned"]},
-                      {"harness": "boolgp", "args": ["--scope", "S0", "--nmin", 4, "--nmax", 6, "--k", 8, "--board", "aligned"]},
+                      {"harness": "boolgp", "args": ["--scope", "S0", "--nmin", 4, "--nmax", 6, "--k", 8, "--board", "aligned", "--cliponly", 1]},
                       {"harness": "rectil", "args": ["--scope", "pairs", "--g", 5]},
-                      {"harness": "rectil", "args": ["--scope", "walks", "--g", 4, "--nmax", 5, "--sp_lo", 1, "--sp_hi", 1]}],
+                      {"harness": "rectil", "args": ["--scope", "triples", "--g", 4, "--sp_lo", 1, "--sp_hi", 1]},
+                      {"harness": "rectil", "args": ["--scope", "walks", "--g", 4, "--nmax", 5, "--sp_lo", 1, "--sp_hi", 1]},
+                      {"harness": "rectil", "args": ["--scope", "cells", "--w", 6, "--h", 5]},
+                      {"harness": "rectil", "args": ["--scope", "cells", "--w", 6, "--h", 5, "--frames", 1]}],
             "thorough": [{"harness": "boolgp", "args": ["--scope", "S1", "--nmax", 5]},
+                         {"harness": "boolgp", "args": ["--scope", "S1", "--nmax", 4, "--k", 8, "--board", "aligned"]},
+                         {"harness": "boolgp", "args": ["--scope", "S0", "--nmin", 4, "--nmax", 6, "--k", 8, "--board", "aligned", "--cliponly", 1]},
                          {"harness": "boolgp", "args": ["--scope", "S2", "--nmax", 4]},
                          {"harness": "boolgp", "args": ["--scope", "S4"]},
                          {"harness": "rectil", "args": ["--scope", "pairs", "--g", 6]},
                          {"harness": "rectil", "args": ["--scope", "triples", "--g", 4]},
-                         {"harness": "rectil", "args": ["--scope", "walks", "--g", 4, "--nmax", 6]}],
+                         {"harness": "rectil", "args": ["--scope", "walks", "--g", 4, "--nmax", 6]},
+                         {"harness": "rectil", "args": ["--scope", "cells", "--w", 6, "--h", 6]},
+                         {"harness": "rectil", "args": ["--scope", "cells", "--w", 6, "--h", 6, "--frames", 1]}],
         },
         "rule": "solutions of every case of the C01 scopes (general position); a case is non-trivial when the solution is non-empty and differs from the inputs",
         "level_text": "Every closed solution path produced in the enumerated scopes is checked against every well-formedness clause with exact integer predicates.",
